@@ -43,7 +43,11 @@ func decCase(in []int64) (nodes []sched.NodeSpec, jobs []sched.JobSpec, tasks []
 	r.List(func() {
 		nodes = append(nodes, sched.NodeSpec{ID: r.Next(), Has: r.Bool(), CPU: r.Next(), Mem: r.Next(), Pods: r.Next(), GPU: r.Next()})
 	})
-	r.List(func() { jobs = append(jobs, sched.JobSpec{ID: r.Next(), Queue: r.Next(), Min: r.Next()}) })
+	r.List(func() {
+		j := sched.JobSpec{ID: r.Next(), Queue: r.Next(), Min: r.Next()}
+		r.List(func() { j.RoleMin = append(j.RoleMin, [2]int64{r.Next(), r.Next()}) })
+		jobs = append(jobs, j)
+	})
 	r.List(func() {
 		tasks = append(tasks, sched.TaskSpec{ID: r.Next(), Job: r.Next(), Role: r.Next(), Prio: r.Next(), CPU: r.Next(), Mem: r.Next(),
 			GPU: r.Next(), Status: r.Next(), Node: r.Next(), Preemptable: r.Bool()})
@@ -70,7 +74,10 @@ func encCase(nodes []sched.NodeSpec, jobs []sched.JobSpec, tasks []sched.TaskSpe
 	}
 	out = append(out, int64(len(jobs)))
 	for _, j := range jobs {
-		out = append(out, j.ID, j.Queue, j.Min)
+		out = append(out, j.ID, j.Queue, j.Min, int64(len(j.RoleMin)))
+		for _, rm := range j.RoleMin {
+			out = append(out, rm[0], rm[1])
+		}
 	}
 	out = append(out, int64(len(tasks)))
 	for _, t := range tasks {
@@ -165,7 +172,7 @@ func exec(w *sched.World, o opT) int64 {
 
 type stepObs struct {
 	res     int64
-	newLog  [][2]int64
+	newLog  [][4]int64
 	newBind [][2]int64
 	newEv   []int64
 }
@@ -186,7 +193,7 @@ func execObserved(w *sched.World, o opT) stepObs {
 func (ob stepObs) enc() []int64 {
 	out := []int64{-101, ob.res, int64(len(ob.newLog))}
 	for _, e := range ob.newLog {
-		out = append(out, e[0], e[1])
+		out = append(out, e[0], e[1], e[2], e[3])
 	}
 	out = append(out, int64(len(ob.newBind)))
 	for _, b := range ob.newBind {
